@@ -389,6 +389,14 @@ def c05(prop, tier, seed):
         if info.get("outstanding", 0) != 0:
             R.mismatch("MapTrace_cluster:leak", tr, "allocator ledger: %s blocks outstanding after the map was freed" % info["outstanding"])
         e3_validate(R, "MapTrace.tla", "MapTrace_duk%s.cfg" % ("_q" if quick else ""), tr, "MapTrace_cluster", timeout=1500)
+    # ... and one key per home slot over 150 consecutive slots across the table end: a cluster longer than half of the table
+    tr = os.path.join(d, "map_cluster2.ndjson")
+    env = {"VP_DTOR": "1", "VP_UPDATE": "1", "VP_DUP": "1", "VP_TRACE_CLUSTER": "2"}
+    info = run_tracer(R, exe, ["--trace", tr, seed, 150, 1500 if quick else 6000], env, "MapTrace_cluster2")
+    if info is not None:
+        if info.get("outstanding", 0) != 0:
+            R.mismatch("MapTrace_cluster2:leak", tr, "allocator ledger: %s blocks outstanding after the map was freed" % info["outstanding"])
+        e3_validate(R, "MapTrace.tla", "MapTrace_duk%s.cfg" % ("_q" if quick else ""), tr, "MapTrace_cluster2", timeout=1500)
     vplib.cleanup(d)
     R.rule = ("programs = edge sequences of the dumped TLC graph of MapAbs.tla (3 keys x 3 values, flag combinations) replayed "
               "with 5 key sets: plain, all keys in one home slot, and three sets homed at slots 254/255/0 so that clusters wrap "
@@ -711,6 +719,7 @@ CORE_CFGS = {
     "rearm": (["A", "B"], {"VP_CAP": "2", "VP_CTXPERSIST": "1", "VP_SETUP": "loop2", "VP_NKEYS": "1"}),
     "tb": (["A", "B"], {"VP_CAP": "2", "VP_CTXPERSIST": "1", "VP_SETUP": "loop2"}),
     "tbbt": (["A", "B"], {"VP_CAP": "2", "VP_CTXPERSIST": "1", "VP_SETUP": "loop2", "VP_MAXPAY": "2"}),
+    "tbbte": (["A", "B"], {"VP_CAP": "2", "VP_CTXPERSIST": "1", "VP_SETUP": "loop2", "VP_MAXPAY": "2", "VP_BT_NS": "15258"}),
     "tbb": (["A", "B"], {"VP_CAP": "3", "VP_CTXPERSIST": "1", "VP_SETUP": "loop2", "VP_MAXPAY": "2", "VP_NKEYS": "1"}),
     "tbtmr": (["A", "B"], {"VP_CAP": "2", "VP_CTXPERSIST": "1", "VP_SETUP": "loop2"}),
     "btmo": (["A", "B"], {"VP_CAP": "2", "VP_CTXPERSIST": "1", "VP_SETUP": "loop2", "VP_MAXPAY": "2"}),
